@@ -258,13 +258,16 @@ def run(tier):
         except subprocess.TimeoutExpired:
             common._hangs[0] += 1
             return {"rc": -999, "stdout": b"", "stderr": b"timeout", "file": None, "argv": args}
+        # '-P /dev/stdout' is judged only if the node was the usual link to fd 1 before AND after the run (anything that runs nasm as
+        # root with '-l /dev/stdout' - the repository's own test suite does - replaces it by a regular file at any moment)
+        dev_ok = os.path.islink("/dev/stdout") and os.readlink("/dev/stdout").endswith("fd/1")
         data = None
         if outfile:
             try:
                 data = open(outfile, "rb").read()
             except OSError:
                 data = None
-        return {"rc": r.returncode, "stdout": r.stdout, "stderr": r.stderr, "file": data, "argv": args[1:]}
+        return {"rc": r.returncode, "stdout": r.stdout, "stderr": r.stderr, "file": data, "argv": args[1:], "dev_ok": dev_ok}
 
     with ThreadPoolExecutor(max_workers=common.NPROC) as ex:
         outs = list(ex.map(go, jobs))
@@ -306,6 +309,9 @@ def run(tier):
             if o["file"] != code:
                 bad = ("binary-output-differs", "file %s vs library %s" % (None if o["file"] is None else o["file"].hex()[:80], R["code"][:80]))
         elif k == "-Pstdout":
+            if not o.get("dev_ok", True):
+                v.inconclusive.append({"why": "/dev/stdout was not the link to fd 1 during this invocation", "case": case["key"]})
+                continue
             if o["stdout"] != code:
                 bad = ("binary-stdout-differs", "%s vs %s" % (o["stdout"].hex()[:80], R["code"][:80]))
         elif k == "-p":
